@@ -81,7 +81,7 @@ fn kv_history_body(capacity: usize, depth: usize) {
 	std::mem::forget(storage); std::mem::forget(controller);
 }
 
-// @h prop=C08,C01 tier=quick kind=main timeout=280
+// @h prop=C08,C01 tier=quick kind=main timeout=600
 // @bounds ResourceStorage of capacity 1; every history of depth 3 over {create, mark a resource for removal, audio-side remove_and_add}
 // @funcs ResourceStorage::{new,remove_and_add}, ResourceController::{insert,try_reserve,insert_with_key,remove_unused,len}, atomic_arena::{Arena,Controller}, rtrb::{Producer::push,Consumer::pop}
 // @catches capacity off by one; slot not freed by removal; unused ring too small (panic on the audio thread); resource dropped on the audio thread; count drifting
@@ -99,7 +99,7 @@ fn c08_storage_history_capacity_2() { kv_history_body(2, 4); }
 struct KvPlain { id: u8, remove: bool }
 impl Default for KvPlain { fn default() -> Self { KvPlain { id: 255, remove: false } } }
 
-// @h prop=C08,C17 tier=quick kind=main timeout=280
+// @h prop=C08,C17 tier=quick kind=main timeout=600
 // @bounds SelfReferentialResourceStorage (clocks / modulators / listeners) holding three picked-up resources; ANY subset marked for removal (3 symbolic marks); one audio-side remove_and_add
 // @funcs SelfReferentialResourceStorage::{remove_and_add,remove_unused}, atomic_arena::Arena::remove, Controller::{free,len}
 // @catches the sweep skipping the entry after a removed one (two adjacent drops then need two callbacks)
